@@ -29,7 +29,7 @@ def warmup():
 def cases(tier, seed):
     sp = tsspace.space(tier)
     out = []
-    for a in sp.args:
+    for a in sp.args + tsspace.wide_family():
         E = tsspace.arg_ts(a).num_edges
         pats = tsspace.mutation_patterns(E, "Ms")
         pats = pats[:2] + pats[3:4] if tier == "quick" else pats
@@ -39,7 +39,7 @@ def cases(tier, seed):
         "cases": out,
         "states": sp.states,
         "transitions": sp.transitions,
-        "bound": f"{sp.describe()} x mutation menu x methods (VG rescaling off/2/2+segsites; IO and max with integer and explicit grids, lin/log) x c in {EXACT + INEXACT}",
+        "bound": f"{sp.describe()} + wide family W5..W7 (a node with 5-7 distinct descendant counts) x mutation menu x methods (VG rescaling off/2/2+segsites; IO and max with integer and explicit grids, lin/log) x c in {EXACT + INEXACT}",
         "exhaustive": True,
     }
 
